@@ -8,7 +8,7 @@ mergeOverlapCells), `Spec` = `XlModel.Grid.Spec` (a total map position → conte
 function update). All theorems quantify over all sheets / histories / positions; nothing
 is bounded. Payload tokens are opaque (conversion is checked by the direct oracle).
 -/
-import XlModel.Lemmas.Grid3
+import XlModel.Lemmas.Grid4
 
 namespace XlModel.Props.C03
 open XlModel XlModel.Grid
@@ -305,6 +305,108 @@ theorem merges_disjoint_partial (s : Sheet) (hd : Disjoint s.merges) (c1 r1 c2 r
     · subst h2; have := hnew m1 h1 c r hc1; simp at hc2; rw [hc2] at this; cases this
     · subst h1; have := hnew m2 h2 c r hc2; simp at hc1; rw [hc1] at this; cases this
     · subst h1; subst h2; rfl
+
+/-- clause "merged ranges reported are always pairwise disjoint", first half: the normalisation run by
+`GetMergeCells` / `UnmergeCell` (`mergeOverlapCells`: flatMergedCells with its pointer matrix and in-place
+rect mutation, then the selection pass) is the identity on a list of valid pairwise disjoint ranges —
+same entries, same order, same `Ref`, same cached rect. -/
+theorem normalise_id_on_disjoint (ms : List MObj) (h : PairwiseDisjoint ms) : mergeOverlapCells ms = ms :=
+  mergeOverlap_id ms h
+
+/-- the side condition of a history under which merges stay disjoint: every `MergeCell` rectangle meets
+no range merged at that moment -/
+def Safe : Sheet → List Op → Prop
+  | _, [] => True
+  | s, op :: ops =>
+    (match op with
+      | .merge c1 r1 c2 r2 => ∀ m ∈ s.merges, NoCommon m.rect (sortRect c1 r1 c2 r2)
+      | _ => True) ∧ Safe (step s op).1 ops
+
+theorem writeAt_merges (s : Sheet) (c r : Nat) (f : CellV → CellV) : (writeAt s c r f).1.merges = s.merges := by
+  unfold writeAt
+  split
+  · rfl
+  · simp only
+    split <;> rfl
+
+theorem pd_step (s : Sheet) (op : Op) (h : PairwiseDisjoint s.merges)
+    (hop : match op with
+      | .merge c1 r1 c2 r2 => ∀ m ∈ s.merges, NoCommon m.rect (sortRect c1 r1 c2 r2)
+      | _ => True) : PairwiseDisjoint (step s op).1.merges := by
+  cases op with
+  | set k c r p =>
+    simp only [step, setCell]
+    cases p with
+    | sst e =>
+      simp only
+      split
+      · simp only; rw [writeAt_merges]; exact h
+      · exact h
+    | tv t v => simp only; rw [writeAt_merges]; exact h
+    | num v => simp only; rw [writeAt_merges]; exact h
+    | inl x => simp only; rw [writeAt_merges]; exact h
+    | clr => simp only; rw [writeAt_merges]; exact h
+  | formula c r fm => simp only [step, setFormula]; rw [writeAt_merges]; exact h
+  | style c1 r1 c2 r2 id =>
+    simp only [step, setStyle]
+    split
+    · exact h
+    · split <;> exact h
+  | getStyle c r => simp only [step, getStyle]; split <;> exact h
+  | merge c1 r1 c2 r2 =>
+    simp only [step, mergeCell]
+    by_cases h0 : c1 = 0 ∨ r1 = 0 ∨ c2 = 0 ∨ r2 = 0
+    · simp [h0]; exact h
+    · simp only [h0, if_false]
+      obtain ⟨_, _, v1, v2⟩ := sortRect_pos c1 r1 c2 r2 h0
+      obtain ⟨hpw, hv⟩ := h
+      constructor
+      · apply List.pairwise_append.mpr
+        refine ⟨hpw, by simp, ?_⟩
+        intro a ha b hb
+        simp only [List.mem_singleton] at hb
+        subst hb
+        exact hop a ha
+      · intro m hm
+        rcases List.mem_append.mp hm with hm | hm
+        · exact hv m hm
+        · simp only [List.mem_singleton] at hm
+          subst hm; exact ⟨v1, v2⟩
+  | unmerge c1 r1 c2 r2 =>
+    simp only [step, unmergeCell]
+    split
+    · exact h
+    · split
+      · exact h
+      · rw [mergeOverlap_id _ h]
+        exact ⟨h.1.filter _, fun m hm => h.2 m (List.mem_filter.mp hm).1⟩
+  | getMerges =>
+    simp only [step, getMerges]
+    split
+    · exact h
+    · rw [mergeOverlap_id _ h]; exact h
+
+/-- clause "merged ranges reported are always pairwise disjoint", as strong as the code allows for
+non-overlapping input: along ANY history (cell writes, styles, merges, unmerges, normalisations, in any
+order) in which no `MergeCell` rectangle meets a range merged at that moment, the merge list stays a
+list of valid pairwise disjoint ranges, and each normalisation returns it unchanged. -/
+theorem merges_disjoint_of_safe (ops : List Op) (s : Sheet) (h : PairwiseDisjoint s.merges) (hs : Safe s ops) :
+    PairwiseDisjoint (run s ops).merges := by
+  induction ops generalizing s with
+  | nil => exact h
+  | cons o os ih =>
+    obtain ⟨h1, h2⟩ := hs
+    simp only [run, List.foldl_cons]
+    exact ih (step s o).1 (pd_step s o h h1) h2
+
+/-- what `GetMergeCells` reports after a safe history is the merge list itself -/
+theorem reported_after_safe (ops : List Op) (s : Sheet) (h : PairwiseDisjoint s.merges) (hs : Safe s ops) :
+    (step (run s ops) .getMerges).1.merges = (run s ops).merges := by
+  have hp := merges_disjoint_of_safe ops s h hs
+  simp only [step, getMerges]
+  split
+  · rfl
+  · exact mergeOverlap_id _ hp
 
 def rA (c1 r1 c2 r2 : Nat) : MObj := ⟨⟨c1, r1, c2, r2⟩, ⟨c1, r1, c2, r2⟩⟩
 
